@@ -12,7 +12,7 @@ Definition c16req := (meth * reqinfo * bytes)%type.
 
 Inductive c16case :=
 | C16Trace (cfg : srvcfg) (cap : nat)        (* Server.Concurrency, as the specification reads it *)
-           (semcap : nat)                        (* cap(s.concurrencyCh) when the handlers ran: Concurrency after Serve, 0 (nil channel) on a server that only ran ServeConn *)
+           (semcap : nat)                        (* cap(s.concurrencyCh) when the handlers ran (= Concurrency since /repo 0e1d77b; it was 0, a nil channel, on ServeConn-only servers) *)
            (date : bytes)
            (tmsg : bytes) (tcode : Z)            (* TimeoutWithCodeHandler(h, d, msg, statusCode) *)
            (events : list event)                 (* the scenario, as the specification sees it *)
